@@ -36,6 +36,13 @@ GRID_ISA = {
     "SphericalSymGrid": {"SphericalSymGrid", "SphericalSymGridBase", "GridBase"},
     "CylindricalSymGrid": {"CylindricalSymGrid", "GridBase"},
 }
+# py-pde contract (trusted base): number of axes, their names and the symmetric (suppressed) coordinates of every grid family
+GRID_FACTS = {
+    "CartesianGrid": lambda d: {"num_axes": d, "axes": list("xyz")[:d], "axes_symmetric": []},
+    "PolarSymGrid": lambda d: {"num_axes": 1, "axes": ["r"], "axes_symmetric": ["φ"]},
+    "SphericalSymGrid": lambda d: {"num_axes": 1, "axes": ["r"], "axes_symmetric": ["θ", "φ"]},
+    "CylindricalSymGrid": lambda d: {"num_axes": 2, "axes": ["r", "z"], "axes_symmetric": ["φ"]},
+}
 DROPLET_CLASSES = ["SphericalDroplet", "DiffuseDroplet", "PerturbedDroplet2D", "PerturbedDroplet3D", "PerturbedDroplet3DAxisSym"]
 
 
@@ -93,6 +100,16 @@ class Interp:
                 return self.env[n.id]
             if n.id in DROPLET_CLASSES or n.id in {c for s in GRID_ISA.values() for c in s} or n.id == "ScalarField":
                 return Cls(n.id)
+            # a module-level literal table (read afresh for every configuration; whether a call may have rewritten it is
+            # the business of the STATELESS rule)
+            for st_ in self.fi.module.tree.body:
+                tg_ = st_.targets[0] if isinstance(st_, ast.Assign) and len(st_.targets) == 1 else (st_.target if isinstance(st_, ast.AnnAssign) else None)
+                if isinstance(tg_, ast.Name) and tg_.id == n.id and isinstance(getattr(st_, "value", None), ast.Dict):
+                    tbl = {}
+                    for k_, v_ in zip(st_.value.keys, st_.value.values):
+                        tbl[self.ev(k_)] = self.ev(v_)
+                    self.env[n.id] = tbl
+                    return tbl
             raise Unsupported(f"CLASSSEL: name `{n.id}` is not part of the configuration", rule="CLASSSEL")
         if isinstance(n, ast.Attribute):
             d = U(n)
@@ -106,6 +123,14 @@ class Interp:
             if base is TOP or (isinstance(base, dict) and "__isa__" in base) or (isinstance(base, Drop) and n.attr != "__class__"):
                 return TOP  # a measured quantity (grid spacing, candidate radius …): not part of the request
             raise Unsupported(f"CLASSSEL: attribute `{d}` not interpretable", rule="CLASSSEL")
+        if isinstance(n, ast.Subscript) and isinstance(n.ctx, ast.Load):
+            base = self.ev(n.value)
+            key = self.ev(n.slice)
+            if isinstance(base, dict) and key in base:
+                return base[key]
+            if isinstance(base, dict):
+                raise Raised("KeyError")
+            raise Unsupported(f"CLASSSEL: subscript `{U(n)[:50]}` not interpretable", rule="CLASSSEL")
         if isinstance(n, ast.Compare) and len(n.ops) == 1:
             l, r, op = self.ev(n.left), self.ev(n.comparators[0]), n.ops[0]
             if (l is TOP or r is TOP) and isinstance(op, (ast.Is, ast.IsNot)) and (l is None or r is None):
@@ -314,7 +339,7 @@ def check_classsel(ctx: Ctx):
     samples = []
     for (family, dim), modes, width, refine in itertools.product(FAMILIES, (0, 2, 3), (None, 0.0, 1.5), (False, True)):
         n_cfg += 1
-        grid = {"__isa__": GRID_ISA[family], "dim": dim}
+        grid = {"__isa__": GRID_ISA[family], "dim": dim, **GRID_FACTS[family](dim)}
         env = {
             "interface_width": width, "modes": modes, "dim": dim, "refine": refine, field: {"__isa__": {"ScalarField"}, "grid": grid}, f"{field}.grid": grid,
             dv: Drop("SphericalDroplet", {"position": "p", "radius": "r"}), "droplets": [],
@@ -441,6 +466,14 @@ def check(ctx: Ctx):
         "dtype fields = constructor parameters for every class (conversions constructible); LOCATORS; NONETEST on the width setter."
     )
     check_classsel(ctx)
+    # the selection is a function of the request alone: no module-level table that a call may have rewritten
+    from ..rules import purity
+
+    sub_p = Ctx(ctx.model, ctx.prop, ctx.tier)
+    purity.check_stateless(sub_p, [f"{IMG}.locate_droplets"])
+    ctx.findings.extend(f for f in sub_p.findings if f.rule == "STATELESS" and (f.verdict == "violated" or f.site == f"{IMG}.locate_droplets"))
+    ctx.functions |= sub_p.functions
+    ctx.expect("STATELESS", 1)
     check_locators(ctx)
     io.check_layouts(ctx)
     setter = m.func(f"{DROP}.DiffuseDroplet.interface_width@setter")
